@@ -98,6 +98,20 @@ Theorem C04_funnel_total : forall choose tail k,
 Proof. exact funnel_total. Qed.
 Print Assumptions C04_funnel_total.
 
+(* Overflow: a send that finds its queue full changes nothing (the producer is blocked; the
+   sequential driver reports EFull), and in the interleaving model NO sequence of producer
+   actions - whatever the queues hold - moves a consumer process: while the consumer is inside
+   a handler, a burst of any size from other goroutines cannot make a second piece run. *)
+Theorem C04_full_send_blocks : forall s c v,
+  snd (step s (OSend c v)) = EFull -> fst (step s (OSend c v)) = s.
+Proof. exact full_send_blocks. Qed.
+Print Assumptions C04_full_send_blocks.
+
+Theorem C04_producers_never_run_handlers : forall prods x,
+  pcs (irun x (map AProd prods)) = pcs x.
+Proof. exact producers_never_run. Qed.
+Print Assumptions C04_producers_never_run_handlers.
+
 (* The len(cases) == 0 branch of HandleOnce is never taken. *)
 Theorem C04_cases_never_empty : forall ops, ~ In ESleep (events ops).
 Proof. exact never_sleep. Qed.
@@ -161,8 +175,15 @@ Example C04_two_consumers_panic :
   nth_error (pcs (irun (init_i 2) (two_sched []))) 0 = Some PPanic.
 Proof. vm_compute. reflexivity. Qed.
 
-(* a service machine: one item of every kind is executed by the consumer *)
+(* a service machine: one item of every kind is executed by the consumer; with an overflow
+   phase (1100 local events, 1050 posts, 1010 timers, 30 session messages, 300 requests against
+   queues of 999) everything is still executed; overflowing global events are dropped beyond 999 *)
 Example C04_example_funnels :
   stress_executed [1; 1; 1; 1; 1; 1; 1; 1; 1; 1; 1; 1; 1; 1] = expected [1; 1; 1; 1; 1; 1; 1; 1; 1; 1; 1; 1; 1; 1]
-  /\ expected [2; 3; 4; 5; 6; 2; 3; 8; 10; 2; 5; 5; 3; 4] = [6; 8; 5; 6; 6; 91; 10; 10; 3; 3; 12].
-Proof. vm_compute. split; reflexivity. Qed.
+  /\ produced [2; 3; 4; 5; 6; 2; 3; 8; 10; 2; 5; 5; 3; 4] = [6; 8; 5; 6; 6; 91; 10; 10; 3; 3; 12]
+  /\ stress_executed [1; 2; 0; 1; 0; 1; 2; 1; 3; 1; 2; 2; 1; 2; 0; 1100; 0; 1050; 1010; 30; 300]
+     = produced [1; 2; 0; 1; 0; 1; 2; 1; 3; 1; 2; 2; 1; 2; 0; 1100; 0; 1050; 1010; 30; 300]
+  /\ stress_executed [0; 0; 0; 0; 0; 0; 0; 0; 0; 1; 0; 3; 0; 0; 0; 0; 1200] = [0; 0; 0; 0; 0; 0; 0; 1002; 0; 0; 0]
+  /\ produced [0; 0; 0; 0; 0; 0; 0; 0; 0; 1; 0; 3; 0; 0; 0; 0; 1200] = [0; 0; 0; 0; 0; 0; 0; 1203; 0; 0; 0]
+  /\ expected [0; 0; 0; 0; 0; 0; 0; 0; 0; 1; 0; 3; 0; 0; 0; 0; 1200] = [0; 0; 0; 0; 0; 0; 0; 1002; 0; 0; 0].
+Proof. vm_compute. repeat split; reflexivity. Qed.
